@@ -386,6 +386,9 @@ def ob_chunker(ctx, res):
                 seq.append((m, x, t))
                 break
         else:
+            x = strip(n)
+            if x.k == "call" and up(x["func"]).split("::")[-1] in ("new", "with_capacity", "default") and not x["args"]:
+                continue        # a fresh buffer (`String::new()`): no effect on the file
             seq.append(("other", n, t))
     kinds = [x[0] for x in seq]
     if kinds != ["seek", "read_line", "seek", "push", "exit"] and kinds != ["seek", "read_line", "stream_position", "push", "exit"]:
@@ -540,25 +543,81 @@ def ob_views(ctx, res):
 
 
 def ob_index_grouping(ctx, res):
-    """C18-G1"""
+    """C18-G1: the tail of index_chroms (collapse adjacent duplicates, detect a chromosome occurring in two runs) is evaluated on small index lists"""
+    import functools
+    from ..rules.interp import Interp, NotPure, _Return
     fn = ctx.ast.fn(IX, "index_chroms")
-    t = up(fn.body)
-    if not re.search(r"chroms\.dedup_by_key\(\|(\w+)\| \1\.1\.clone\(\)\);", t):
-        res.fail("grouping/adjacent-dedup", fn, "adjacent index entries with the same chromosome must be collapsed")
+    st = fn.body["stmts"]
+    i0 = [i for i, x in enumerate(st) if "drain_iter" in up(x)]
+    if len(i0) != 1:
+        res.undecided("grouping/shape", fn, "the statement collecting the index list (`.drain_iter().collect()`) was not located")
         return
-    m = re.search(r"let mut (\w+) = chroms\.clone\(\); \1\.(sort\w*)\((.*?)\); \1\.dedup_by_key\(\|(\w+)\| \4\.1\.clone\(\)\); if chroms\.len\(\) != \1\.len\(\) \{return Ok\(None\);?\}", t)
-    if not m:
-        res.fail("grouping/check", fn, "the grouped-ness check (sort a copy by name, dedup by name, compare lengths -> None) not found")
-        return
-    sort_call, key = m.group(2), m.group(3)
-    by_name = (sort_call in ("sort_by", "sort_unstable_by") and re.search(r"\.1\.cmp\(&?\w+\.1\)", key)) or \
-              (sort_call in ("sort_by_key", "sort_unstable_by_key", "sort_by_cached_key") and re.search(r"\.1", key))
-    if not by_name:
-        res.fail("grouping/sort-key", fn,
-                 "the copy is sorted with `%s(%s)`, i.e. by (offset, name): offsets are unique and already ascending, so equal names never become "
-                 "adjacent, the lengths always agree and an ungrouped file (chr1, chr2, chr1) is never reported as such" % (sort_call, key))
-        return
-    res.ok(fn, "index: adjacent duplicates collapsed; a copy sorted by NAME and deduplicated has the same length iff no chromosome re-occurs non-adjacently, else None")
+    seg = st[i0[0]:]
+    cases = [("one run per chromosome", [(0, "a"), (5, "b"), (9, "c")], ("some", ("some", [(0, "a"), (5, "b"), (9, "c")]))),
+             ("a run recorded by two adjacent entries", [(0, "a"), (3, "a"), (5, "b")], ("some", ("some", [(0, "a"), (5, "b")]))),
+             ("a chromosome occurring in two runs", [(0, "a"), (5, "b"), (9, "a")], ("some", None)),
+             ("names not in sorted order, one run each", [(0, "b"), (5, "a")], ("some", ("some", [(0, "b"), (5, "a")]))),
+             ("a single chromosome", [(0, "a")], ("some", ("some", [(0, "a")])))]
+    for desc, lst, want in cases:
+        holder = [None]
+
+        def method(m, recv, args, lst=lst):
+            it = holder[0]
+            if recv == "LL" and m == "drain_iter" and not args:
+                return list(lst)
+            if isinstance(recv, list):
+                if m in ("collect", "into_iter", "iter", "to_vec") and not args:
+                    return list(recv)
+                if m == "len" and not args:
+                    return len(recv)
+                if m == "is_empty" and not args:
+                    return not recv
+                if m in ("dedup_by_key", "dedup_by") and len(args) == 1:
+                    out = []
+                    for x in recv:
+                        if m == "dedup_by_key":
+                            same = bool(out) and it.apply_closure(args[0], [x]) == it.apply_closure(args[0], [out[-1]])
+                        else:
+                            same = bool(out) and bool(it.apply_closure(args[0], [x, out[-1]]))
+                        if not same:
+                            out.append(x)
+                    recv[:] = out
+                    return None
+                if m == "dedup" and not args:
+                    out = []
+                    for x in recv:
+                        if not out or out[-1] != x:
+                            out.append(x)
+                    recv[:] = out
+                    return None
+                if m in ("sort", "sort_unstable") and not args:
+                    recv.sort()
+                    return None
+                if m in ("sort_by_key", "sort_unstable_by_key", "sort_by_cached_key") and len(args) == 1:
+                    recv.sort(key=lambda x: it.apply_closure(args[0], [x]))
+                    return None
+                if m in ("sort_by", "sort_unstable_by") and len(args) == 1:
+                    def cmp(a_, b_):
+                        r = it.apply_closure(args[0], [a_, b_])
+                        return {"Less": -1, "Equal": 0, "Greater": 1}[r[1]] if isinstance(r, tuple) and len(r) == 3 else 0
+                    recv.sort(key=functools.cmp_to_key(cmp))
+                    return None
+            raise NotPure("method %s on %s" % (m, type(recv).__name__))
+        itp = Interp(ctx.ast, IX, extern={"None": None, "method": method, "call": lambda p_, a_: NotImplemented})
+        holder[0] = itp
+        env = {"chroms": "LL"}
+        try:
+            got = itp.run_stmts(seg, env)
+        except _Return as r:
+            got = r.v
+        except NotPure as e:
+            res.undecided("grouping/not-evaluable", fn, "the grouping check of index_chroms is outside the fragment the rule evaluates (%s)" % e)
+            return
+        if got != want:
+            res.fail("grouping/check", fn, "index_chroms, %s %s: returns %s, required %s (adjacent entries of one chromosome are collapsed; a chromosome that re-occurs "
+                                           "non-adjacently makes the file `not grouped` = None; offsets keep file order)" % (desc, lst, got, want))
+            return
+    res.ok(fn, "index tail evaluated on %d index lists: adjacent duplicates collapsed; a chromosome in two runs -> None; otherwise the entries in file order" % len(cases))
 
 
 # ---------------------------------------------------------------------------------------------------------------------
